@@ -76,3 +76,18 @@ lemma("trie_key_prefix_homomorphism", props=["C16", "C03"],
       hyps="post('path_to_trie_key', path=p, result=kp) and post('path_to_trie_key', path=q, result=kq)",
       goal="Prefix(p, q) == (len(kp) <= len(kq) and forall(j, 0, len(kp), ord(kp[j]) == ord(kq[j])))",
       note="get_subtrie/suffixes rely on: p is a prefix of q iff key(p) is a string prefix of key(q)")
+
+# ---- one subtree relation, four implementations ---------------------------------------------------------------------
+# evaluator / XPath elimination / tree insertion ask helpers.is_prefix, the mutator and count() ask parent_reflexive /
+# parent_or_child, the language's `inside` asks isla_predicates.in_tree.  Over the four contracts only: they are the
+# same relation (in_tree with its arguments swapped), and parent_or_child is its symmetric closure.
+lemma("subtree_relation_implementations_agree", props=["C16", "C04"],
+      types={"t": "Any", "p": "Path", "q": "Path", "a": "Bool", "b": "Bool", "c": "Bool", "d": "Bool", "e": "Bool"},
+      hyps="post('is_prefix', path_1=p, path_2=q, result=a) and "
+           "post('parent_reflexive', path_1=p, path_2=q, result=b) and "
+           "post('in_tree', _=t, path_1=q, path_2=p, result=c) and "
+           "post('parent_or_child', path_1=p, path_2=q, result=d) and "
+           "post('in_tree', _=t, path_1=p, path_2=q, result=e)",
+      goal="a == b and b == c and d == (c or e)",
+      note="helpers.is_prefix(p, q) == helpers.parent_reflexive(p, q) == inside(q, p); "
+           "parent_or_child(p, q) == inside(q, p) or inside(p, q)")
